@@ -312,7 +312,7 @@ PROPS['C02'] = dict(
 PROPS['C08'] = dict(
     lean_modules=['Model.Query', 'Model.CDbGeneric', 'Properties.C08', 'Facts.Query'],
     facts=['*'],
-    theorems=['C08_estimate', 'C08_estimate_range', 'C08_no_commit_no_write', 'binSearch_spec', 'step_orig', 'fact_commit_literals'],
+    theorems=['C08_estimateGas', 'C08_estimateGas_capped', 'C08_stale_cap_returns_unexecutable', 'searchBound_le_cap', 'fact_estimate_gas_assigns', 'C08_estimate', 'C08_estimate_range', 'C08_no_commit_no_write', 'binSearch_spec', 'step_orig', 'fact_commit_literals'],
     engines=[dict(name='binsearch', test='TestEngineBinsearch', quick=3000, thorough=200000, thorough_seeds=2, functional=True),
              dict(name='query', test='TestEngineQuery', quick=100, thorough=2500, thorough_seeds=2, no_model=True)],
     rule='E-binsearch: the real evmtypes.BinSearch on arbitrary executable tables (monotone, random, mostly failing, gapped, with consensus errors) vs the Lean binSearch. E-query: on committed states, eth_call / estimateGas / traceTx (with predecessors, commit=true inside the query context) / traceBlock / evm, cpc, feemarket, vauth gRPC queries through BaseApp.Query, then Simulate, CheckTx new and re-check of the same call as a signed transaction (9 call kinds: storage set / clear, logs, a gas-dependent branch, ERC-20 precompile transfer, precompile writes with a reverted frame, self-destruct, creation, revert); every key and value of every KV store plus the working hash is digested before and after each request; the call is then delivered (same gas limit) and once more with the estimate as gas limit; non-trivial = every line; distinct by op-line hash',
